@@ -54,7 +54,7 @@ type Op struct {
 type Case struct {
 	Name  string   `json:",omitempty"`
 	Addrs []string // 20-byte addresses, hex
-	Mut   bool     // true: the monitor's per-operation sweep uses the caching Get; false: a non-caching peek (trie Find + disk)
+	Mut   bool     // true: after every operation the monitor additionally sweeps all views with the caching Get (the side-effect-free sweep - trie Find, else disk - always runs)
 	Ops   []Op
 	// filled in when a monitor fires
 	FailedAt int    `json:",omitempty"`
@@ -566,6 +566,17 @@ func fixedCases() []Case {
 		{K: "block", B: 1}, {K: "write", B: 2, A: 4, V: 6},
 		{K: "read", B: 1, A: 2},
 		{K: "read", B: 2, A: 3},
+	}})
+	// 6. the same defect in the other direction: the read of r2 goes through block 2, whose
+	// lower node inserts in place into the slice block 1's own node still uses -> block 1
+	// loses its own write of r3.
+	out = append(out, Case{Name: "regress-split-shares-children-slice-parent-view", Addrs: raddrs, Ops: []Op{
+		{K: "block", B: -1}, {K: "write", B: 0, A: 0, V: 1}, {K: "write", B: 0, A: 1, V: 2}, {K: "write", B: 0, A: 2, V: 3}, {K: "write", B: 0, A: 3, V: 4},
+		{K: "stable", B: 0}, {K: "reopen"},
+		{K: "block", B: 0}, {K: "read", B: 1, A: 0}, {K: "read", B: 1, A: 1}, {K: "write", B: 1, A: 3, V: 5},
+		{K: "block", B: 1}, {K: "write", B: 2, A: 4, V: 6},
+		{K: "read", B: 2, A: 2},
+		{K: "read", B: 1, A: 3},
 	}})
 	return out
 }
@@ -1194,9 +1205,19 @@ func (x *exec) step(op Op) bool {
 		x.c.Inconclusive("unknown op " + op.K)
 		return false
 	}
-	// monitors after every operation
-	if !x.viewSweep(x.cs.Mut) {
+	// monitors after every operation: first without side effects (so that a difference is
+	// attributed to the operation), then - in 1/3 of the databases - with the caching Get,
+	// and once more without side effects if that sweep cached anything
+	if !x.viewSweep(false) {
 		return false
+	}
+	if x.cs.Mut {
+		if !x.viewSweep(true) {
+			return false
+		}
+		if x.cachingGets > 0 && !x.viewSweep(false) {
+			return false
+		}
 	}
 	if op.K != "stable" && op.K != "reopen" { // those have just done it
 		if !x.treeCheck(false) {
@@ -1300,7 +1321,7 @@ func execute(c *run.Ctx, cs *Case) (x *exec) {
 	}
 	// end of history: the real Get through every view, the stable path, the disk
 	x.opi = len(cs.Ops) - 1
-	if !x.viewSweep(true) || !x.treeCheck(true) || !x.stablePathCheck() || !x.persistedCheck("at the end") {
+	if !x.viewSweep(true) || !x.viewSweep(false) || !x.treeCheck(true) || !x.stablePathCheck() || !x.persistedCheck("at the end") {
 		return
 	}
 	x.endHistory()
@@ -1334,9 +1355,10 @@ func runAll(c *run.Ctx) {
 			runCase(c, &cs)
 		}
 	}
-	// quick: 76 databases x 4 histories = 304 histories; thorough: 1250 x 8 = 10000
+	// quick: 76 databases x 4 histories = 304 histories; thorough: 1270 x 8 = 10160 (a
+	// database stops at the first monitor report, so known findings cost a few histories)
 	perDB := c.Pick(4, 8)
-	lo, hi := c.Share(c.Pick(76, 1250))
+	lo, hi := c.Share(c.Pick(76, 1270))
 	for i := lo; i < hi; i++ {
 		r := run.NewRng(c.Seed, 9, uint64(i))
 		opsLo, opsHi := 70, 100
